@@ -22,7 +22,7 @@ GridProbes == {2 * x : x \in (Lo - 2)..(Hi + 2)} \cup {-3, -1, 1, 3, 5}      \* 
 Probes == GridProbes \cup Specials
 ContDefs == {Cont(2 * a, 2 * b) : a \in Lo..Hi, b \in Lo..Hi}            \* incl. inverted and equal bounds
 DiscDefs == {Disc(n) : n \in 1..4}
-PermVals(n) == [1..n -> 0..3]
+PermVals(n) == [1..n -> 0..(2 * n)]      \* candidates in HALF units: 0, 0.5, ..., n (ties, fractions, members, non-members)
 ValidConts == {Cont(-4, 0), Cont(0, 2), Cont(-2, 8)}
 SmallProbes == {-6, -1, 0, 1, 2, 3, 20, NAN}
 
@@ -89,7 +89,7 @@ LawCorrectScalar == c.kind \in {"cont", "disc"} /\ Covered(c.v) =>
     IN CorrectRelScalar(c.def, c.v, out) /\ CorrectScalar(c.def, out) = out
 LawCorrectPerm == c.kind = "perm" =>
     LET out == CorrectPerm(c.v)
-    IN CorrectRelPerm(c.n, c.v, out) /\ CorrectPerm(out) = out
+    IN CorrectRelPermH(c.n, c.v, out) /\ CorrectPerm(out) = out
 LawDecode ==
     /\ c.kind = "disc" /\ Covered(c.v) => LET out == CorrectScalar(c.def, c.v) IN DecodeRelDisc(c.def, out, out \div 2)
     /\ c.kind = "perm" => LET out == CorrectPerm(c.v) IN DecodeRelPerm(c.n, out, DecodePerm(out))
